@@ -250,3 +250,23 @@ func canonNames(n [][][]string) string {
 	}
 	return strings.Join(scopes, " ; ")
 }
+
+// ExtraC08: the static half of C08 - which reset methods exist, per flag - on
+// the generator corpora (method-less, generic, embedded, aliased interfaces).
+func ExtraC08(tier string) func(sc *core.Scratch, ev *core.Evidence, rep *core.Reporter) (int, error) {
+	return func(sc *core.Scratch, ev *core.Evidence, rep *core.Reporter) (int, error) {
+		seed := core.Seed()
+		var cases []*Case
+		cases = append(cases, CorpusFlags(seed, tier)...)
+		cases = append(cases, CorpusRaw(seed, tier)...)
+		cases = append(cases, CorpusGenerics(seed, tier)...)
+		v, _, err := EvaluateCases("C08", "C08static", cases, sc, ev, rep)
+		if err != nil {
+			return 2, err
+		}
+		if v > 0 {
+			return 1, nil
+		}
+		return 0, nil
+	}
+}
